@@ -873,16 +873,17 @@ pub(crate) fn range(
     if shape.is_empty() {
         return Ok(Err(cowslice![0]));
     }
-    if shape.iter().any(|&d| adjust(d) == 0) {
-        return Ok(Err(CowSlice::new()));
-    }
     // Validate actual size
+    // Even if some dimension is 0, the other dimensions must make a valid shape
     let len = validate_size::<f64>(
         (shape.iter())
             .map(|&d| adjust(d).unsigned_abs())
             .chain([shape.len()]),
         env,
     )?;
+    if shape.iter().any(|&d| adjust(d) == 0) {
+        return Ok(Err(CowSlice::new()));
+    }
     let mut scan = (shape.iter().rev())
         .scan(1, |acc, &d| {
             let old = *acc;
